@@ -85,7 +85,9 @@ class C17(Prop):
         return {'formula': f, 'kind': kind, 'data': data, 'n': n, 're': re, 'shape': shape, 'perm': rng.random(),
                 'feed': rng.choice(['disjoint', 'disjoint', 'repeat-frontier', 'frontier-only', 'staggered', 'idle-poll']),
                 'stagger': [rng.randint(0, 2) for _ in range(4)], 'structs': rng.random() < 0.2,
-                'served': rng.random() < 0.25}
+                'served': rng.random() < 0.25,
+                'period': (rng.choice([[0.5, 's'], [0.25, 's'], [1.0, 's'], [500, 'ms'], [250, 'ms'], [1000, 'ms'], [500000, 'us']])
+                           if rng.random() < 0.08 else None)}
 
     def judge_small(self, case):
         v = Verdict()
@@ -135,6 +137,11 @@ class C17(Prop):
         got_value = False
         try:
             sdm = {'text': text, 'vars': declared}
+            if kind.startswith('dt') and case.get('period'):
+                # a sampling period that divides one second, written as a float or in a finer unit: every bound (whole
+                # seconds) stays a multiple of it - a well-formed configuration
+                sdm['period'] = tuple(case['period']) + (0.1,)
+                v.info['class:sampling-period-%s%s' % tuple(case['period'])] = 1
             if kind.startswith('ct_on') and case.get('structs') and case.get('feed') != 'staggered':
                 sdm['structify'] = True             # inputs as (nested) fields of one object-typed variable
                 v.info['class:struct-inputs'] = 1
